@@ -37,12 +37,15 @@ fn check_sequence(
     goal_texts: &[String],
     seq: &[usize],
     cfg: SolverCfg,
+    // also print the recorded program after every goal but the last (printing must not disturb
+    // what later prints contain: "after any goals" includes after a prefix)
+    print_between: bool,
 ) {
     // 1. solve the sequence through the recording wrapper (one solver, one wrapper)
     let wrapped = LoggingRustIrDatabase::<_, CProgram, _>::new(program.clone());
     let mut solver = AnySolver::new(cfg);
     let mut originals: Vec<DSol> = vec![];
-    for &gi in seq {
+    for (k, &gi) in seq.iter().enumerate() {
         let peeled = match drive::peel(program, &goal_texts[gi]) {
             Ok(p) => p,
             Err(_) => return,
@@ -53,8 +56,12 @@ fn check_sequence(
             Caught::Ok(s) => originals.push(s),
             _ => return, // C09's business
         }
+        if print_between && k + 1 < seq.len() {
+            let _ = drive::guarded(|| chalk_integration::tls::set_current_program(program, || wrapped.to_string()));
+            *local.entry("intermediate_prints".into()).or_insert(0) += 1;
+        }
     }
-    let input = || json!({"family": family, "program": program_text, "goals": seq.iter().map(|g| goal_texts[*g].clone()).collect::<Vec<_>>(), "solver": cfg.name()});
+    let input = || json!({"family": family, "program": program_text, "goals": seq.iter().map(|g| goal_texts[*g].clone()).collect::<Vec<_>>(), "solver": cfg.name(), "printed_after_each_goal": print_between});
     // 2. print the recorded program
     let printed = drive::guarded(|| chalk_integration::tls::set_current_program(program, || wrapped.to_string()));
     let printed = match printed {
@@ -163,7 +170,10 @@ pub fn run_c23(rep: &Report) -> i32 {
         for seq in sequences(texts.len(), max_len) {
             for cfg in [SolverCfg::SLG, SolverCfg::REC] {
                 *local.entry("sequences".into()).or_insert(0) += 1;
-                check_sequence(rep, &mut local, pc.frag, &pc.text, &pc.chalk, &texts, &seq, cfg);
+                check_sequence(rep, &mut local, pc.frag, &pc.text, &pc.chalk, &texts, &seq, cfg, false);
+                if seq.len() >= 2 {
+                    check_sequence(rep, &mut local, pc.frag, &pc.text, &pc.chalk, &texts, &seq, cfg, true);
+                }
             }
         }
         rep.merge_counts(&local);
@@ -186,7 +196,10 @@ pub fn run_c23(rep: &Report) -> i32 {
         for seq in sequences(goals.len(), max_len.min(2)) {
             for cfg in [SolverCfg::SLG, SolverCfg::REC] {
                 *local.entry("sequences".into()).or_insert(0) += 1;
-                check_sequence(rep, &mut local, tc.family, &tc.program, &program, &goals, &seq, cfg);
+                check_sequence(rep, &mut local, tc.family, &tc.program, &program, &goals, &seq, cfg, false);
+                if seq.len() >= 2 {
+                    check_sequence(rep, &mut local, tc.family, &tc.program, &program, &goals, &seq, cfg, true);
+                }
             }
         }
         if ti % 90 == 0 {
@@ -202,7 +215,7 @@ pub fn run_c23(rep: &Report) -> i32 {
         states,
         tr,
         nt,
-        "for a thinning of the reduced C01 corpus and of the text families for associated types and auto traits: every sequence of length <= 2 (thorough 3) over an alphabet of 4-5 goals is solved on one solver through LoggingRustIrDatabase, the recorded program is printed, parsed and lowered again, the same goals are solved on it by a fresh solver of the same kind, and the decoded answers must be equal; non-trivial = compared answers that are not `No possible solution`",
+        "for a thinning of the reduced C01 corpus and of the text families for associated types and auto traits: every sequence of length <= 2 (thorough 3) over an alphabet of 4-5 goals is solved on one solver through LoggingRustIrDatabase (sequences of length >= 2 also with the program printed after every goal), the recorded program is printed, parsed and lowered again, the same goals are solved on it by a fresh solver of the same kind, and the decoded answers must be equal; non-trivial = compared answers that are not `No possible solution`",
         true,
         &["answers are compared by item name after decoding"],
     )
